@@ -18,6 +18,7 @@ import (
 	"context"
 	"fmt"
 	"github.com/honeytrap/honeytrap/services/decoder"
+	"io"
 	"net"
 	"strings"
 
@@ -69,15 +70,21 @@ func (s *snmpService) Handle(_ context.Context, conn net.Conn) error {
 	}
 
 	b := bufio.NewReader(conn)
-	// Type + length
-	hdr, err := b.Peek(2)
+	// Type + length; messages of 128 bytes and more announce their length in
+	// the long form (0x81 LL, 0x82 HH LL)
+	hdr, _ := b.Peek(6)
+	hdrSize, length, _, ok, err := decoder.BERHeader(hdr)
 	if err != nil {
 		return err
 	}
-	asnSize := 2 + int(hdr[1])
+	if !ok || hdrSize+length > 65535 {
+		// no datagram is that long
+		return decoder.ErrBERTruncated
+	}
+	asnSize := hdrSize + length
 	buf := make([]byte, asnSize)
-	n, err := b.Read(buf)
-	if err != nil {
+	n, err := io.ReadFull(b, buf)
+	if err != nil && err != io.ErrUnexpectedEOF {
 		return err
 	}
 
